@@ -2,6 +2,7 @@
 //! in the line protocol of DESIGN Appendix B. `pm-harness <stage> [--thorough]`, seed from
 //! the environment variable VERIF_SEED (default 1).
 mod con;
+mod e2e;
 mod idx;
 mod maps;
 mod proto;
@@ -27,6 +28,7 @@ fn main() {
         "maps" => maps::run(seed, thorough),
         "tree" => tree::run(seed, thorough),
         "topo" => topo::run(seed, thorough),
+        "e2e.str" => e2e::run_strings(seed, thorough, if thorough { 20000 } else { 1200 }),
         _ => {
             eprintln!("unknown stage {stage}");
             std::process::exit(2);
